@@ -26,6 +26,8 @@ fn main() {
         "slots" => mcv::l3b::run_c17(&ctx),
         "fault" => mcv::l3b::run_c18(&ctx),
         "config" => mcv::config::run_c20(&ctx),
+        "linsock" => mcv::linsock::run_linsock(&ctx),
+        "timer" => mcv::linsock::run_timer(&ctx),
         "pipe" => mcv::l3::run_c12(&ctx),
         "toolarge" => mcv::l3::run_c13(&ctx),
         "sockframe" => mcv::l3::run_sock_frames(&ctx),
